@@ -117,6 +117,60 @@ def library_check():
     return sorted(set(GATE_CLASS_MAP) - known), sorted(known - set(GATE_CLASS_MAP) - LEGACY)
 
 
+_NONTRANS = {}
+
+
+def nontransitive_triples():
+    """Every (A, B, H) of placed library gates on two qubits such that A and B share a qubit and do NOT commute (by their
+    matrices) while the documented commutation rule declares H commuting with A and with B, H acting on that qubit too:
+    the rule is not transitive (CNOT(c->q) with X(q) and RX(q); CNOT(q->t) with Z(q) and RZ(q)), so "commutes with one
+    member of the qubit's current cycle" does not imply "commutes with all".  Computed from the library's matrices and the
+    documented rule (cached per tree variant), as name/targets/controls triples."""
+    key = (len_bound(), self_commuting_names())
+    if key not in _NONTRANS:
+        pool = [g for g in placements(2) if len(g[1]) + len(g[2]) <= 2]
+        spec = {i: [g[0], g[1], g[2], arg_for(g[0], i % 5)] for i, g in enumerate(pool)}
+        out = []
+        for h in spec:
+            partners = [a for a in spec if a != h and used_of(spec[a]) & used_of(spec[h]) and documented_rule(spec[h], spec[a])]
+            for a in partners:
+                for b in partners:
+                    if a == b:
+                        continue
+                    common = used_of(spec[a]) & used_of(spec[b]) & used_of(spec[h])
+                    # different parameters for two gates of one family
+                    sb = list(spec[b])
+                    if sb[0] == spec[a][0]:
+                        sb[3] = arg_for(sb[0], 3) if spec[a][3] != arg_for(sb[0], 3) else arg_for(sb[0], 4)
+                    if common and not truly_commute(spec[a], sb):
+                        out.append((pool[a], pool[b], pool[h]))
+        _NONTRANS.clear()
+        _NONTRANS[key] = out
+    return _NONTRANS[key]
+
+
+DUR_PATTERNS3 = [(1, 1, 2), (2, 1, 2), (1, 1, 1), (2, 1, 1), (1, 2, 1), (1, 1, 5), (5, 1, 1), (2, 2, 1)]
+
+
+def nontransitive_shapes(tails=True):
+    """all six orders of every non-transitive triple (see nontransitive_triples), optionally followed / preceded by a gate on
+    the other qubit that changes the priorities -> sequences of (name, targets, controls)"""
+    seen = set()
+    for a, b, h in nontransitive_triples():
+        for order in itertools.permutations((a, b, h)):
+            seqs = [list(order)]
+            if tails:
+                other = [q for q in (0, 1)]
+                for q in other:
+                    seqs.append(list(order) + [("SNOT", [q], [])])
+                    seqs.append([("SNOT", [q], [])] + list(order))
+            for seq in seqs:
+                k = repr(seq)
+                if k not in seen:
+                    seen.add(k)
+                    yield seq
+
+
 def interleave_shapes(full=False):
     """Circuits in which a gate F sits BETWEEN two non-commuting gates on the same qubit (F ranges over every one-qubit
     name of the library, IDLE included, so that a rule or a dependency loop that lets F hide the earlier gate is exposed):
